@@ -694,7 +694,12 @@ impl World {
 
     /// Answer held request number `k` with `spec`.
     pub fn respond(&mut self, rec: &mut Rec, k: usize, spec: &RespSpec) {
-        if k >= self.held.len() || self.server.is_none() {
+        if k >= self.held.len() {
+            return;
+        }
+        if self.server.is_none() {
+            // the server is gone (it panicked): drop the request so that callers' loops over `held` end
+            self.held.remove(k);
             return;
         }
         let h = self.held.remove(k);
@@ -726,6 +731,7 @@ impl World {
     /// `enqueue_responses` for the held requests `ks` (indices into `held`, distinct), each with a small body.
     pub fn respond_many(&mut self, rec: &mut Rec, mut ks: Vec<usize>, bodies: Vec<Vec<u8>>) {
         if self.server.is_none() {
+            self.held.clear();
             return;
         }
         ks.sort_unstable();
